@@ -265,3 +265,15 @@ pub open spec fn let_rule_ok(pat: PatId, annotation: Option<HirTypeExpr>, value:
             None => inferred(value, *v) && pat_checked(pat, expr_ty(*v), p),
         })
 }
+
+// ---- struct literals (U-INFERCTRL, fragment struct_lit_tail) ----
+#[verifier::external_body] pub struct StructLitArgElab { _p: u64 }
+pub struct StructLitElab { pub constructor: Constructor, pub args: Vec<StructLitArgElab> }
+impl Typer { #[verifier::external_body] pub fn record_struct_lit_elab(&mut self, e: ExprId, elab: StructLitElab) ensures final(self).constraints() == old(self).constraints(), final(self).recorded() == old(self).recorded() { unimplemented!() } }
+// the value a struct literal elaborates to: the constructor applied to the (ordered) field values; its type is the instantiated constructor's result type, and that
+// instantiated type is equated with (types of the field values, in order) -> (the value's type) — which is what ties every field value to its field's declared type
+pub open spec fn struct_lit_ok(inst: Ty, c: Constructor, args: Seq<Expr>, r: Expr, rec: Set<Constraint>) -> bool {
+    r matches Expr::EConstr { constructor, args: a, ty } && constructor == c && a@ == args
+    && (match inst { Ty::TFunc { params: _, ret_ty } => ty == *ret_ty, _ => ty == inst })
+    && (if a@.len() > 0 { exists|ft: Ty| #[trigger] rec.contains(Constraint::TypeEqual(inst, ft)) && call_site_ty(ft, a@, ty) } else { rec.contains(Constraint::TypeEqual(inst, ty)) })
+}
